@@ -159,6 +159,24 @@ impl FileMetadataState {
     }
 }
 
+/// What tells one real directory from another, whichever route led to it: the device and
+/// inode numbers (the file system answers that at once, however long the route is), the
+/// resolved path where there are none.
+#[cfg(unix)]
+type DirectoryIdentity = (u64, u64);
+#[cfg(not(unix))]
+type DirectoryIdentity = PathBuf;
+
+#[cfg(unix)]
+fn directory_identity(dir: &Path) -> io::Result<DirectoryIdentity> {
+    fs::metadata(dir).map(|metadata| (metadata.dev(), metadata.ino()))
+}
+
+#[cfg(not(unix))]
+fn directory_identity(dir: &Path) -> io::Result<DirectoryIdentity> {
+    fs::canonicalize(dir)
+}
+
 pub struct Searcher<'a> {
     query: &'a Query,
     config: &'a Config,
@@ -174,7 +192,7 @@ pub struct Searcher<'a> {
     output_buffer: TopN<Criteria<String>, String>,
     hgignore_filters: Vec<HgignoreFilter>,
     dockerignore_filters: Vec<DockerignoreFilter>,
-    visited_dirs: HashSet<PathBuf>,
+    visited_dirs: HashSet<DirectoryIdentity>,
     #[cfg(unix)]
     visited_inodes: HashSet<u64>,
     lscolors: LsColors,
@@ -619,8 +637,16 @@ impl<'a> Searcher<'a> {
         traversal_mode: TraversalMode,
         process_queue: bool,
     ) -> io::Result<()> {
-        // Canonicalize the path to resolve symlinks and relative paths
-        let canonical_path = crate::util::canonical_path(&dir.to_path_buf());
+        // The real location of the directory is needed for the ignore rules only. Resolving it
+        // costs a walk over every component of the path, for every directory: a search without
+        // such rules merely asks whether the directory is there.
+        let needs_real_path = apply_gitignore || apply_hgignore || apply_dockerignore;
+        let canonical_path = match needs_real_path {
+            true => crate::util::canonical_path(&dir.to_path_buf()),
+            false => fs::metadata(dir)
+                .map(|_| String::new())
+                .map_err(|err| err.to_string()),
+        };
         if canonical_path.is_err() {
             self.error_count += 1;
             error_message(
@@ -632,12 +658,18 @@ impl<'a> Searcher<'a> {
             return Ok(());
         }
 
+        let canonical_dir = match needs_real_path {
+            true => fs::canonicalize(dir).unwrap_or_else(|_| PathBuf::from(canonical_path.unwrap())),
+            false => dir.to_path_buf(),
+        };
         // Prevents infinite loops when following symlinks: every real directory is
         // traversed once, whichever way it is reached
-        // (the path itself, not its display text: names that are no valid Unicode stay distinct)
-        let canonical_dir = fs::canonicalize(dir).unwrap_or_else(|_| PathBuf::from(canonical_path.unwrap()));
-        if self.current_follow_symlinks && !self.visited_dirs.insert(canonical_dir.clone()) {
-            return Ok(());
+        if self.current_follow_symlinks {
+            if let Ok(identity) = directory_identity(dir) {
+                if !self.visited_dirs.insert(identity) {
+                    return Ok(());
+                }
+            }
         }
 
         // Read the directory and process each entry
